@@ -67,11 +67,15 @@ Definition wf (s : state) : Prop := wfb s = true.
 
 (* every unbonding / redelegation entry has its pair in the queue slice of its completion time
    (InsertUBDQueue / InsertRedelegationQueue put it there when the entry is created) *)
+Definition is_nil {A} (l : list A) : bool := match l with [] => true | _ => false end.
 Definition qcoverb (s : state) : bool :=
   forallb (fun kv : k2 * ubd_rec =>
+     negb (is_nil (u_entries (snd kv))) &&
      forallb (fun e => existsb (k2_eqb (fst kv)) (ubd_slice s (ue_time e))) (u_entries (snd kv))) (ubds (stake s)) &&
   forallb (fun kv : k3 * red_rec =>
-     forallb (fun e => existsb (k3_eqb (fst kv)) (red_slice s (re_time e))) (r_entries (snd kv))) (reds (stake s)).
+     negb (is_nil (r_entries (snd kv))) &&
+     forallb (fun e => existsb (k3_eqb (fst kv)) (red_slice s (re_time e))) (r_entries (snd kv))) (reds (stake s)) &&
+  nodupb Z.eqb (keys (ubdq (stake s))) && nodupb Z.eqb (keys (redq (stake s))).
 
 (* the by-validator indexes list exactly the records *)
 Definition idx_matches {K V} (eqb : K -> K -> bool) (m : list (K * V)) (ix : list (K * unit)) : Prop :=
@@ -121,3 +125,65 @@ Definition queued_exist (s : state) : Prop :=
 Definition has_staking (s : state) (a : addr) : Prop :=
   (exists v, del_of s a v <> None) \/ (exists v, ubd_of s a v <> None) \/ (exists v w, red_of s a v w <> None).
 Definition is_validator (s : state) (a : addr) : bool := shas Z.eqb a (vals s).
+
+(* ---------- well-formedness as propositions ---------- *)
+Record wfP (s : state) : Prop := {
+  wf_bal : NoDup (map fst (bal s));
+  wf_start : NoDup (map fst (start s));
+  wf_dels : NoDup (map fst (dels (stake s)));
+  wf_ubds : NoDup (map fst (ubds (stake s)));
+  wf_reds : NoDup (map fst (reds (stake s)));
+  wf_delk : forall kv, In kv (dels (stake s)) -> fst kv = (d_del (snd kv), d_val (snd kv));
+  wf_ubdk : forall kv, In kv (ubds (stake s)) -> fst kv = (u_del (snd kv), u_val (snd kv));
+  wf_redk : forall kv, In kv (reds (stake s)) -> fst kv = (r_del (snd kv), (r_src (snd kv), r_dst (snd kv)));
+  wf_startdel : forall k, In k (map fst (start s)) -> In k (map fst (dels (stake s)))
+}.
+
+Record qcoverP (s : state) : Prop := {
+  qc_ubd : forall kv e, In kv (ubds (stake s)) -> In e (u_entries (snd kv)) -> In (fst kv) (ubd_slice s (ue_time e));
+  qc_red : forall kv e, In kv (reds (stake s)) -> In e (r_entries (snd kv)) -> In (fst kv) (red_slice s (re_time e));
+  qc_ubd_ne : forall kv, In kv (ubds (stake s)) -> u_entries (snd kv) <> [];
+  qc_red_ne : forall kv, In kv (reds (stake s)) -> r_entries (snd kv) <> [];
+  qc_ubdq : NoDup (map fst (ubdq (stake s)));
+  qc_redq : NoDup (map fst (redq (stake s)))
+}.
+
+(* ---------- what an accepted migration does, pointwise ---------- *)
+Definition sel {A} (from to a : Z) (x_to x_from x_other : A) : A :=
+  if a =? to then x_to else if a =? from then x_from else x_other.
+Definition has_del (s : state) (a v : addr) : bool := shas k2_eqb (a, v) (dels (stake s)).
+Definition has_ubd (s : state) (a v : addr) : bool := shas k2_eqb (a, v) (ubds (stake s)).
+Definition has_red (s : state) (a v w : addr) : bool := shas k3_eqb (a, (v, w)) (reds (stake s)).
+
+Record moved (from to : addr) (s s' : state) : Prop := {
+  (* the portfolio: the target receives, the source is left with nothing, nobody else is touched *)
+  mv_bal : forall a d, bal_of s' a d = sel from to a (bal_of s to d + bal_of s from d) 0 (bal_of s a d);
+  mv_del : forall a v, del_of s' a v = sel from to a (option_map (to_del to) (del_of s from v)) None (del_of s a v);
+  mv_start : forall a v, start_of s' a v = sel from to a (start_of s from v) None (start_of s a v);
+  mv_ubd : forall a v, ubd_of s' a v = sel from to a (option_map (to_ubd to) (ubd_of s from v)) None (ubd_of s a v);
+  mv_red : forall a v w, red_of s' a v w = sel from to a (option_map (to_red to) (red_of s from v w)) None (red_of s a v w);
+  (* the by-validator indexes that the code rewrites *)
+  mv_i33 : forall a v, in33 s' a v = sel from to a (has_ubd s from v || in33 s to v) (negb (has_ubd s from v) && in33 s from v) (in33 s a v);
+  mv_i35 : forall a v w, in35 s' a v w = sel from to a (has_red s from v w || in35 s to v w) (negb (has_red s from v w) && in35 s from v w) (in35 s a v w);
+  mv_i36 : forall a v w, in36 s' a v w = sel from to a (has_red s from v w || in36 s to v w) (negb (has_red s from v w) && in36 s from v w) (in36 s a v w);
+  (* ... and the two it does not *)
+  mv_i71 : idx71 (stake s') = idx71 (stake s);
+  mv_unb : unbidx (stake s') = unbidx (stake s);
+  (* maturation queues: the slices at the completion times of the source's entries are renamed in place *)
+  mv_ubdq : forall t, ubd_slice s' t =
+     if existsb (Z.eqb t) (ubd_times s from) then map (ren_pair from to) (ubd_slice s t) else ubd_slice s t;
+  mv_redq : forall t, red_slice s' t =
+     if existsb (Z.eqb t) (red_times s from) then map (ren_trip from to) (red_slice s t) else red_slice s t;
+  (* everything else *)
+  mv_gov : gov s' = gov s;
+  mv_vals : vals s' = vals s;
+  mv_accts : accts s' = accts s;
+  mv_cfg : cfg s' = cfg s;
+  mv_clock : now s' = now s /\ height s' = height s;
+  mv_rec : forall a, has_record s' a = (a =? to) || (a =? from) || has_record s a;
+  (* totals *)
+  mv_supply : forall d, supply s' d = supply s d;
+  mv_shares : forall v, val_shares s' v = val_shares s v;
+  mv_unbonding : forall v, val_unbonding s' v = val_unbonding s v;
+  mv_redelegating : forall v w, val_redelegating s' v w = val_redelegating s v w
+}.
